@@ -37,7 +37,8 @@ def matrix():
 
 
 def own():
-    p = os.path.join(HERE, 'build/seed_own.tsv')
+    # tools/seed_own_results.tsv is the committed record of the own-check runs (build/seed_own.tsv is the last run only)
+    p = os.path.join(HERE, 'tools/seed_own_results.tsv')
     if not os.path.exists(p):
         return '(not run yet)'
     m = {}
@@ -45,11 +46,11 @@ def own():
         s, v = l.rstrip('\n').split('\t')
         m[s] = v
     sym = {'caught': '**X**', 'caught-nfif': 'x', 'quiet': '·', 'does-not-apply': 'n/a'}
-    rounds = ['', 'b', 'c', 'd', 'e', 'f', 'g']
-    rows = ['| property | round 1 | round 2 | round 3 | round 4 | round 5 | round 6 | round 7 |', '|---|---|---|---|---|---|---|---|']
+    rounds = ['', 'b', 'c', 'd', 'e', 'f', 'g', 'h']
+    rows = ['| property | round 1 | round 2 | round 3 | round 4 | round 5 | round 6 | round 7 | round 8 |', '|---|---|---|---|---|---|---|---|---|']
     for i in range(1, 21):
         pid = 'C%02d' % i
-        rows.append('| %s | ' % pid + ' | '.join(sym.get(m.get(pid + r, ''), 'withdrawn' if (pid + r) in ('C01b', 'C14c', 'C08b') else ' ') for r in rounds) + ' |')
+        rows.append('| %s | ' % pid + ' | '.join(sym.get(m.get(pid + r, ''), 'withdrawn' if (pid + r) in ('C01b', 'C14c', 'C08b') else ('-' if r == 'h' else ' ')) for r in rounds) + ' |')
     return '\n'.join(rows)
 
 
